@@ -303,10 +303,14 @@ impl<'ctx> NaivePriceRepository<'ctx> {
                     continue;
                 }
             }
-            for (j, Entry(source, rates)) in match self.records.get(&prev) {
-                None => continue,
-                Some(x) => x,
-            } {
+            let Some(neighbors) = self.records.get(&prev) else {
+                continue;
+            };
+            // Sorts by the commodity name, otherwise which of equally distant rates wins
+            // depends on HashMap iteration order.
+            let mut neighbors: Vec<(&Commodity<'ctx>, &Entry)> = neighbors.iter().collect();
+            neighbors.sort_unstable_by_key(|(c, _)| c.as_str());
+            for (j, Entry(source, rates)) in neighbors {
                 let bound = rates.partition_point(|(record_date, _)| record_date <= &date);
                 log::debug!(
                     "found next commodity {} with date bound {}",
